@@ -55,12 +55,12 @@ impl TryFrom<&[u8]> for VarSizeInt {
         let mut val = 0u32;
 
         for (idx, &byte) in bytes.iter().enumerate() {
-            val += (byte as u32 & 127) * mult;
-
+            // At most four bytes; checked first, the multiplication below would overflow on a fifth one.
             if mult as usize > Self::MAX {
                 return Err(ValueExceedesMaximum.into());
             }
 
+            val += (byte as u32 & 127) * mult;
             mult *= 128;
 
             if byte & 128 == 0 {
